@@ -8,6 +8,7 @@ class ConnInfo(object):
     def __init__(self, idx, a):
         self.idx, self.a = idx, a
         self.i_build = None
+        self.has_ondisc = True
         self.connect_calls = []      # api events
         self.n_connects = 0          # CONNECT packets written (more than one: connect() again after a refusal)
         self.i_connect_write = None  # index of the CONNECT pkt event
@@ -134,6 +135,7 @@ class Analysis(object):
             if k == "build":
                 c = self.conn(e["conn"], e["a"])
                 c.i_build = e["i"]
+                c.has_ondisc = e.get("ondisc", bool(self.cfg.ondisc))
                 p = last_of_addr.get(e["a"])
                 if p is not None:
                     c.prev = p
